@@ -3,7 +3,7 @@
 From Coq Require Import List String Bool Arith.
 From Coq Require Import Floats.PrimFloat.
 From PAFCommon Require Import PyFloat.
-From PAFC01 Require Import ModelTree.
+From PAFC01 Require Import ModelTree PyArith.
 Import ListNotations.
 Local Open Scope string_scope.
 Local Open Scope list_scope.
@@ -14,6 +14,15 @@ Definition fbin (o : binop) (a b : float) : float :=
   | OSub => PrimFloat.sub a b
   | OMul => PrimFloat.mul a b
   | ODiv => PrimFloat.div a b
+  | OFloorDiv => py_floordiv a b       (* defined for b <> 0; Python raises ZeroDivisionError otherwise *)
+  | OMod => py_mod a b
+  end.
+
+(* Python float __neg__ / __abs__: sign bit flipped / cleared (exact) *)
+Definition funop (o : unop) (a : float) : float :=
+  match o with
+  | UNeg => PrimFloat.opp a
+  | UAbs => PrimFloat.abs a
   end.
 
 Definition fnode := node float.
@@ -89,6 +98,6 @@ Definition check_case (c : case) : bool :=
   && Nat.eqb (prior_count float n) (c_count c)
   && list_eqb Nat.eqb ids (c_ids c)
   && (negb (c_cmp_inst c) ||
-      ival_eqb (inst float fbin (zip_args float ids (c_vec c)) m) (c_inst c)
-      && ival_eqb (inst float fbin (path_args float n (c_pv c)) m) (c_inst_paths c)
-      && opt_ival_eqb (inst float fbin (zip_args float ids (c_unit_vec c)) m) (c_inst_unit c)).
+      ival_eqb (inst float fbin funop (zip_args float ids (c_vec c)) m) (c_inst c)
+      && ival_eqb (inst float fbin funop (path_args float n (c_pv c)) m) (c_inst_paths c)
+      && opt_ival_eqb (inst float fbin funop (zip_args float ids (c_unit_vec c)) m) (c_inst_unit c)).
